@@ -99,13 +99,14 @@ impl Flat {
 }
 
 fn nodes_to_idx(tab: &std::collections::HashMap<Node, usize>, it: impl Iterator<Item = Node>) -> Vec<i64> {
-    it.take(100_000).map(|n| tab.get(&n).map(|i| *i as i64).unwrap_or(-1)).collect()
+    // (the cap stops an iterator that never ends; no result is longer than the tree)
+    it.take(tab.len() * 2 + 1000).map(|n| tab.get(&n).map(|i| *i as i64).unwrap_or(-1)).collect()
 }
 fn ex(v: &[usize]) -> Vec<i64> {
     v.iter().map(|i| *i as i64).collect()
 }
 fn edges_to_idx(tab: &std::collections::HashMap<Node, usize>, it: impl Iterator<Item = NodeEdge>) -> Vec<(bool, i64)> {
-    it.take(200_000)
+    it.take(tab.len() * 4 + 1000)
         .map(|e| match e {
             NodeEdge::Start(n) => (true, tab.get(&n).map(|i| *i as i64).unwrap_or(-1)),
             NodeEdge::End(n) => (false, tab.get(&n).map(|i| *i as i64).unwrap_or(-1)),
@@ -412,12 +413,15 @@ pub fn eval_tree(a: &A, st: &mut Stats, full: bool) -> Vec<Fail> {
             }
             // top element of a node below the document: the top-level ancestor-or-self element if any
             let top = anc.iter().copied().filter(|j| f.kind[*j] == K::Elem).last();
-            if i == 0 {
-                if let Some(d) = de {
-                    chk!("top_element", i, tab.get(&xot.top_element(h)).map(|x| *x as i64), Some(d as i64));
-                }
-            } else if let Some(t) = top {
+            if let Some(t) = top {
                 chk!("top_element", i, tab.get(&xot.top_element(h)).map(|x| *x as i64), Some(t as i64));
+            } else if let Some(d) = de {
+                // the document node itself, or a comment / PI / text beside the top-level elements: "given node
+                // anywhere in a tree ... in an XML document this is the document element"
+                chk!(if i == 0 { "top_element" } else { "top_element(beside-the-document-element)" }, i, tab.get(&xot.top_element(h)).map(|x| *x as i64), Some(d as i64));
+            } else {
+                // no element anywhere: there is no element to return, but the call must come back
+                chk!("top_element(no-element-in-document)", i, xot.top_element(h) == xot.top_element(h), true);
             }
         } else {
             let top = anc.iter().copied().filter(|j| f.kind[*j] == K::Elem).last();
@@ -468,14 +472,9 @@ pub fn eval_tree(a: &A, st: &mut Stats, full: bool) -> Vec<Fail> {
                     if normal {
                         desc_or_self.clone()
                     } else {
-                        // not pinned for attribute / namespace nodes beyond "self, no descendants"
-                        let got = catch(|| nodes_to_idx(&tab, xot.axis(*ax, h)));
-                        st.evals += 1;
-                        match got {
-                            Ok(g) if g.is_empty() || g == vec![i as i64] => {}
-                            other => fails.push(Fail::new(format!("list|axis:{}|{}", name, f.kind[i].name()), format!("{:?}", other))),
-                        }
-                        continue;
+                        // XPath: descendant-or-self of an attribute / namespace node is that node (it has no
+                        // descendants), just as self and ancestor-or-self contain it
+                        vec![i]
                     }
                 }
                 Axis::AncestorOrSelf => anc.clone(),
@@ -632,18 +631,123 @@ pub fn run(tier: Tier) -> i32 {
             return 2;
         }
     }
-    if let Err(e) = require_nonzero(&stats, &["trees", "big_instances"]) {
+    // huge instances (a fan of 200 000 children, 20 000 attributes on one element), each in a child process: an
+    // iterator that recurses once per sibling or per skipped node ends the process, not just the evaluation
+    {
+        let exe = std::env::current_exe().expect("current_exe");
+        let mut st = Stats::default();
+        for name in HUGE {
+            let t0 = std::time::Instant::now();
+            let out = std::process::Command::new(&exe).args(["C07HUGE", name]).output();
+            st.evals += 1;
+            st.bump("huge_instances");
+            match out {
+                Err(e) => {
+                    eprintln!("MACHINERY: cannot start the child process for {}: {}", name, e);
+                    return 2;
+                }
+                Ok(o) => {
+                    let text = String::from_utf8_lossy(&o.stdout).to_string();
+                    match o.status.code() {
+                        Some(0) => {}
+                        Some(3) => {
+                            for l in text.lines().filter_map(|l| l.strip_prefix("HUGE-FAIL ")) {
+                                let (sig, d) = l.split_once('\t').unwrap_or((l, ""));
+                                st.fail(&json!({"huge": name}), Fail::new(format!("huge|{}", sig), format!("{}: {}", name, d)));
+                            }
+                        }
+                        Some(2) => {
+                            eprintln!("MACHINERY: child for {} refused its arguments", name);
+                            return 2;
+                        }
+                        other => {
+                            let last = text.lines().filter_map(|l| l.strip_prefix("API ")).last().unwrap_or("(building the tree)").to_string();
+                            let err = String::from_utf8_lossy(&o.stderr);
+                            let why = if err.contains("overflowed its stack") { "stack-overflow" } else { "process-died" };
+                            st.fail(
+                                &json!({"huge": name}),
+                                Fail::new(format!("huge|{}|{}|{}", why, name.trim_end_matches(|c: char| c.is_ascii_digit()), last), format!("{}: the process evaluating it ended with {:?} during {} ({})", name, other, last, err.lines().last().unwrap_or(""))),
+                            );
+                        }
+                    }
+                }
+            }
+            if t0.elapsed().as_secs_f64() > 120.0 {
+                st.fail(&json!({"huge": name}), Fail::new(format!("slow|{}", name), format!("{} took {:?}", name, t0.elapsed())));
+            }
+        }
+        stats = stats.merge(st);
+    }
+    if let Err(e) = require_nonzero(&stats, &["trees", "big_instances", "huge_instances"]) {
         eprintln!("MACHINERY: {}", e);
         return 2;
     }
     let (_, n) = alphabet(tier);
     let cov = json!({
-        "rule": format!("every labelled ordered tree with <= {} ordinary nodes over 3 element prototypes (plain; 1 namespace node + 1 attribute; 2 namespace nodes + 2 attributes) and leaves text/comment/PI, as unattached tree and under a document node (fragment-style forests included), plus detached attribute / namespace nodes; every node of every tree x every traversal API and all 12 Axis values; distinct = distinct canonical trees", n),
+        "rule": format!("every labelled ordered tree with <= {} ordinary nodes over 3 element prototypes (plain; 1 namespace node + 1 attribute; 2 namespace nodes + 2 attributes) and leaves text/comment/PI, as unattached tree and under a document node (fragment-style forests included), plus detached attribute / namespace nodes; plus large instances (chain 2000, fan 2000, 2000 attributes, comb 300) and, each in a child process with an 8 MiB stack, huge ones (fan of 200 000 children, 20 000 attributes on one element) on the whole-tree laws; every node of every tree x every traversal API and all 12 Axis values; distinct = distinct canonical trees", n),
         "bounds": {"max_ordinary_nodes": n, "thorough_extra": "documents with 6..8 ordinary nodes over 2 element prototypes + text"},
         "explanation": "each API result is compared with the list computed on the abstract tree (walk order indices)",
     });
     ctx.finish(stats, cov, vec!["tree construction through the creation API is trusted to produce the abstract tree (cross-checked by read-back in C04/C20)".into()])
 }
+
+/// in the child process of a huge instance: name the API that runs next (a stack overflow ends the process, and the
+/// parent reports the last name it saw)
+fn progress(api: &str) {
+    if std::env::var_os("XOTMC_HUGE_CHILD").is_some() {
+        println!("API {}", api);
+    }
+}
+
+fn huge_instance(name: &str) -> Option<A> {
+    let n: usize = name.trim_start_matches(|c: char| c.is_ascii_alphabetic()).parse().ok()?;
+    if name.starts_with("fan") {
+        let mut fan = A::el("", "a");
+        for i in 0..n {
+            fan.ch.push(if i % 2 == 0 { A::el("", "b") } else { A::comment("c") });
+        }
+        Some(A::doc(vec![fan]))
+    } else if name.starts_with("attrs") {
+        let mut at = A::el("", "a");
+        for i in 0..n {
+            at.attrs.push(A::attr_node("", &format!("k{}", i), "v"));
+        }
+        at.ch.push(A::el("", "b"));
+        Some(A::doc(vec![A::el("", "r").child(A::el("", "first")).child(at).child(A::el("", "last"))]))
+    } else {
+        None
+    }
+}
+
+/// `xotmc C07HUGE <name>`: one huge instance in a process of its own, on a thread with the 8 MiB stack a main thread
+/// usually has. Exit 0 = all laws held, 3 = failures (printed as HUGE-FAIL lines); anything else is the death of
+/// the process (stack overflow in a recursive iterator), which the parent turns into a failure.
+pub fn huge_child(name: &str) -> i32 {
+    let Some(a) = huge_instance(name) else {
+        eprintln!("unknown huge instance {}", name);
+        return 2;
+    };
+    std::env::set_var("XOTMC_HUGE_CHILD", "1");
+    let h = std::thread::Builder::new().stack_size(8 << 20).spawn(move || {
+        let mut st = Stats::default();
+        eval_big(&a, &mut st)
+    });
+    match h.unwrap().join() {
+        Ok(fails) => {
+            for f in &fails {
+                println!("HUGE-FAIL {}\t{}", f.sig, f.detail);
+            }
+            if fails.is_empty() {
+                0
+            } else {
+                3
+            }
+        }
+        Err(_) => 4,
+    }
+}
+
+pub const HUGE: [&str; 2] = ["fan200000", "attrs20000"];
 
 /// reduced evaluation for the large instances: full API set, on a sample of nodes
 fn eval_big(a: &A, st: &mut Stats) -> Vec<Fail> {
@@ -666,10 +770,12 @@ fn eval_big(a: &A, st: &mut Stats) -> Vec<Fail> {
             fails.push(Fail::new(format!("big|{}", api), format!("{}: expected len {} got {:?}", api, exp.len(), g)));
         }
     };
+    progress("descendants");
     chk("descendants", catch(|| nodes_to_idx(&tab, xot.descendants(root))), normal_all.clone());
     chk("all_descendants", catch(|| nodes_to_idx(&tab, xot.all_descendants(root))), all.clone());
     let last = handles[n_all - 1];
     let lastn = *handles.iter().enumerate().filter(|(i, _)| f.normal(*i)).map(|(_, h)| h).last().unwrap();
+    progress("all_reverse_preorder / reverse_preorder");
     chk("all_reverse_preorder", catch(|| nodes_to_idx(&tab, xot.all_reverse_preorder(last))), all.iter().rev().cloned().collect());
     let lastn_i = tab[&lastn];
     chk(
@@ -677,6 +783,7 @@ fn eval_big(a: &A, st: &mut Stats) -> Vec<Fail> {
         catch(|| nodes_to_idx(&tab, xot.reverse_preorder(lastn))),
         normal_all.iter().rev().cloned().filter(|x| *x <= lastn_i as i64).collect(),
     );
+    progress("following");
     chk("following(root elem start)", catch(|| nodes_to_idx(&tab, xot.following(handles[0]))), vec![]);
     // following of the first leaf-most node, preceding of the last
     let first_leaf = (0..n_all).find(|i| f.normal(*i) && f.ch[*i].is_empty()).unwrap();
@@ -684,8 +791,11 @@ fn eval_big(a: &A, st: &mut Stats) -> Vec<Fail> {
     chk("following(first leaf)", catch(|| nodes_to_idx(&tab, xot.following(handles[first_leaf]))), fol);
     let anc = f.ancestors_or_self(lastn_i);
     let prec: Vec<i64> = (0..lastn_i).rev().filter(|j| f.normal(*j) && !anc.contains(j)).map(|j| j as i64).collect();
+    progress("preceding(last)");
     chk("preceding(last)", catch(|| nodes_to_idx(&tab, xot.preceding(lastn))), prec);
+    progress("ancestors(last)");
     chk("ancestors(last)", catch(|| nodes_to_idx(&tab, xot.ancestors(lastn))), anc.iter().map(|x| *x as i64).collect());
+    progress("traverse / NodeEdge::next / level_order");
     let mut tr = vec![];
     f.traverse(0, false, &mut tr);
     let got = catch(|| edges_to_idx(&tab, xot.traverse(root)));
